@@ -264,7 +264,43 @@ def check(ctx, report):
     from .c10 import parsed_sequences_kept
     parsed_sequences_kept(ctx, report, RULE='C18.R14',
                           title='parsers of header and record values hand on every element they read: no result rebuilt from a mapping keyed by the element names as spelled')
+    list_elements_skip_empty(ctx, report)
     report.floor('C18.R1', 24, 'named components')
+
+
+def list_elements_skip_empty(ctx, report, RULE='C18.R15'):
+    """RFC 9110 5.6.1 lets a recipient meet empty elements in every list (``a,,b``, ``a; ;b``) and the CSP grammar separates source
+    expressions by *runs* of whitespace; to the list primitive a run of separators is a sequence of empty elements, which it
+    refuses unless it is told to skip them.  Every call of ``parse_string_array`` in the header and policy record modules (the
+    helpers included, whatever their name) therefore passes ``skip_empty=True``; the four calls of the pinned tree do."""
+    report.rule(RULE, 'lists of header / policy values skip empty elements: every parse_string_array call of the text modules passes skip_empty=True')
+    MODS = ('cryptoparser/httpx/', 'cryptoparser/common/field.py', 'cryptoparser/dnsrec/txt.py')
+
+    def lax(node):
+        out = []
+        for x in ast.walk(node):
+            if isinstance(x, ast.Call) and isinstance(x.func, ast.Attribute) and x.func.attr == 'parse_string_array':
+                kw = {k.arg: k.value for k in x.keywords}
+                se = kw.get('skip_empty', x.args[6] if len(x.args) > 6 else None)
+                out.append((x, isinstance(se, ast.Constant) and se.value is True))
+        return out
+    sample = lax(ast.parse("parser.parse_string_array('value', ' ', item_class)\nparser.parse_string_array('v', ';', skip_empty=True)"))
+    if [ok for _, ok in sample] != [False, True]:
+        report.error('%s: the rule does not recognise its own samples' % RULE)
+        return
+    n = 0
+    for f in ctx.model.functions():
+        if f.module.external or not f.module.relpath.startswith(MODS):
+            continue
+        n += 1
+        for call, ok in lax(f.node):
+            report.count(RULE)
+            if not ok:
+                report.add(RULE, '%s@list[%s]' % (f.construct, ast.unparse(call.args[0])[:30] if call.args else '?'),
+                           '%s does not skip empty elements: a run of separators (two spaces between source expressions, ";;", ", ,") is refused '
+                           'although the grammar allows it' % ast.unparse(call)[:110])
+    report.count(RULE, n)
+    report.floor(RULE, 150, 'functions of the header / policy record modules')
 
 
 def folds_case_eq(f):
